@@ -61,10 +61,7 @@ def thr_tokens(o, prefix: str) -> List[str]:
 
 
 def acl_lists(a) -> Tuple[list, list, list, list]:
-    """The configured lists. The object only keeps `x_to_id` dictionaries; generators that use repeated entries attach the
-    original lists as `_verif_lists`."""
-    if hasattr(a, "_verif_lists"):
-        return a._verif_lists
+    """The lists behind the object's `x_to_id` tables (de-duplicated by `__init__`), recovered from the tables themselves."""
 
     def back(d: dict) -> list:
         items = sorted(d.items(), key=lambda kv: kv[1])
@@ -551,18 +548,9 @@ def gen_object(rng: Rng, defects: bool) -> Tuple[Any, dict]:
     if rng.chance(1, 3):
         comps.append({"type": "none", "label": "ICS", "options": {}})
     cfg = {"type": "custom", "options": {"components": comps, "thresholds": thresholds}}
-    mgr = ObservationManager(config=cfg)
+    import copy
+    mgr = ObservationManager(config=copy.deepcopy(cfg))  # the constructor rewrites the dictionary it is given
     obj = mgr.obs
-    if facts["dup"]:
-        # the objects only keep dictionaries: remember the configured lists for the model
-        def mark(a: ACLObservation):
-            a._verif_lists = (list(ips), list(wcs), list(ports), list(protos))
-        nodes = obj.components["NODES"]
-        for r in nodes.routers:
-            mark(r.acl)
-        for f in nodes.firewalls:
-            for a in (f.internal_inbound_acl, f.internal_outbound_acl, f.dmz_inbound_acl, f.dmz_outbound_acl, f.external_inbound_acl, f.external_outbound_acl):
-                mark(a)
     facts.update({"cfg": cfg, "mt": mt, "ips": ips, "has_acl": bool(nodes_opts["routers"] or nodes_opts["firewalls"])})
     return obj, facts
 
